@@ -16,7 +16,7 @@ for kind in ("seeds", "mutants", "benign"):
             except Exception:
                 what = ""
         if n in exp:
-            what = (what + " [" + exp[n]["status"] + "]").strip()
+            what = (what + " [" + exp[n].get("status", "see note") + "]").strip()
         rep = ", ".join(det) if det else ("silent (as required)" if kind == "benign" else "not reported")
         lines.append("| %s | %s | %s | %s |" % (kind[:-1] if kind != "benign" else kind, n, what, rep))
 m = "\n".join(lines)
